@@ -12,6 +12,19 @@ type minimizer struct {
 	deadline time.Time
 }
 
+// exhausted: no more candidates may be tried (cloning a large plan is
+// expensive in itself, so loops check this before preparing a candidate).
+func (m *minimizer) exhausted() bool {
+	if m.tests >= m.budget {
+		return true
+	}
+	if !m.deadline.IsZero() && time.Now().After(m.deadline) {
+		m.budget = m.tests
+		return true
+	}
+	return false
+}
+
 func (m *minimizer) try(q *Plan) bool {
 	if m.tests >= m.budget {
 		return false
@@ -159,6 +172,9 @@ func minimizeUntil(p *Plan, test func(*Plan) bool, budget int, deadline time.Tim
 		changed := false
 		// 1. drop whole tasks
 		for ti := 0; ti < len(p.Tasks) && len(p.Tasks) > 1; ti++ {
+			if m.exhausted() {
+				break
+			}
 			q := p.clone()
 			q.Tasks = append(q.Tasks[:ti:ti], q.Tasks[ti+1:]...)
 			if m.try(q) {
@@ -170,6 +186,9 @@ func minimizeUntil(p *Plan, test func(*Plan) bool, budget int, deadline time.Tim
 		for ti := range p.Tasks {
 			for chunk := len(p.Tasks[ti].Ops) / 2; chunk >= 1; chunk /= 2 {
 				for at := 0; at+chunk <= len(p.Tasks[ti].Ops); {
+					if m.exhausted() {
+						break
+					}
 					q := p.clone()
 					ops := q.Tasks[ti].Ops
 					q.Tasks[ti].Ops = append(ops[:at:at], ops[at+chunk:]...)
@@ -186,6 +205,9 @@ func minimizeUntil(p *Plan, test func(*Plan) bool, budget int, deadline time.Tim
 			if len(p.Tasks[ti].Tape) == 0 {
 				continue
 			}
+			if m.exhausted() {
+				break
+			}
 			q := p.clone()
 			q.Tasks[ti].Tape = nil
 			if m.try(q) {
@@ -193,6 +215,9 @@ func minimizeUntil(p *Plan, test func(*Plan) bool, budget int, deadline time.Tim
 				continue
 			}
 			for len(p.Tasks[ti].Tape) > 1 {
+				if m.exhausted() {
+					break
+				}
 				q := p.clone()
 				q.Tasks[ti].Tape = q.Tasks[ti].Tape[:len(q.Tasks[ti].Tape)/2]
 				if !m.try(q) {
@@ -203,11 +228,17 @@ func minimizeUntil(p *Plan, test func(*Plan) bool, budget int, deadline time.Tim
 		}
 		// 4. remove elements of operand lists and scripts
 		for k := 0; ; k++ {
+			if m.exhausted() {
+				break
+			}
 			s := planSites(p)
 			if k >= len(s.vals) {
 				break
 			}
 			for j := 0; j < siteLenV(p, k); j++ {
+				if m.exhausted() {
+					break
+				}
 				q := p.clone()
 				sl := planSites(q).vals[k]
 				*sl = append((*sl)[:j:j], (*sl)[j+1:]...)
@@ -221,11 +252,17 @@ func minimizeUntil(p *Plan, test func(*Plan) bool, budget int, deadline time.Tim
 			}
 		}
 		for k := 0; ; k++ {
+			if m.exhausted() {
+				break
+			}
 			s := planSites(p)
 			if k >= len(s.steps) {
 				break
 			}
 			for j := 0; j < siteLenS(p, k); j++ {
+				if m.exhausted() {
+					break
+				}
 				q := p.clone()
 				sl := planSites(q).steps[k]
 				*sl = append((*sl)[:j:j], (*sl)[j+1:]...)
@@ -237,6 +274,9 @@ func minimizeUntil(p *Plan, test func(*Plan) bool, budget int, deadline time.Tim
 		}
 		// 5. replace operands by simpler ones of a trivial class
 		for k := 0; ; k++ {
+			if m.exhausted() {
+				break
+			}
 			s := planSites(p)
 			if k >= len(s.vals) {
 				break
@@ -246,6 +286,9 @@ func minimizeUntil(p *Plan, test func(*Plan) bool, budget int, deadline time.Tim
 				if cur.K == "int" && cur.I == 0 {
 					continue
 				}
+				if m.exhausted() {
+					break
+				}
 				q := p.clone()
 				(*planSites(q).vals[k])[j] = Val{K: "int"}
 				if m.try(q) {
@@ -253,6 +296,9 @@ func minimizeUntil(p *Plan, test func(*Plan) bool, budget int, deadline time.Tim
 					continue
 				}
 				if len(cur.V) == 1 && wrapperKind(cur.K) { // unwrap
+					if m.exhausted() {
+						break
+					}
 					q := p.clone()
 					(*planSites(q).vals[k])[j] = cur.V[0]
 					if m.try(q) {
@@ -263,12 +309,18 @@ func minimizeUntil(p *Plan, test func(*Plan) bool, budget int, deadline time.Tim
 		}
 		// 6. shorten strings
 		for k := 0; ; k++ {
+			if m.exhausted() {
+				break
+			}
 			s := planSites(p)
 			if k >= len(s.strs) {
 				break
 			}
 			for siteLenStr(p, k) > 0 {
 				cur := *planSites(p).strs[k]
+				if m.exhausted() {
+					break
+				}
 				q := p.clone()
 				*planSites(q).strs[k] = cur[:len(cur)/2]
 				if !m.try(q) {
@@ -282,6 +334,9 @@ func minimizeUntil(p *Plan, test func(*Plan) bool, budget int, deadline time.Tim
 			for j := range p.Tasks[ti].Tape {
 				if p.Tasks[ti].Tape[j] == 0 {
 					continue
+				}
+				if m.exhausted() {
+					break
 				}
 				q := p.clone()
 				q.Tasks[ti].Tape[j] = 0
